@@ -55,6 +55,8 @@ def run_sink(case):
                 cm.close_connection(0.0, e[1])
             elif e[0] == 'smsg':
                 cm.message(e[1], build_message(e[2]))
+            elif e[0] == 'cmd':
+                ctrl.process_command(e[1])
         except Exception as ex:
             extra.append(('raise', implenv.exn_code(ex)))
         outs.append(log[st:] + extra)
@@ -63,6 +65,7 @@ def run_sink(case):
     for m in ctrl.all_messages:
         ci = conns.index(m.obj.connection) if m.obj.connection in conns else -1
         allm.append([ci, implsession.canon_msg(m)])
-    final = [[implsession.canon_conn(c) for c in conns], str(ctrl.display_matcher), str(ctrl.stop_matcher), [], allm,
+    cur = [conns.index(ctrl.current_connection)] if getattr(ctrl, 'current_connection', None) in conns else []
+    final = [[implsession.canon_conn(c) for c in conns], str(ctrl.display_matcher), str(ctrl.stop_matcher), cur, allm,
              1 if ui.paused() else 0, 1 if ui.should_quit() else 0]
     return outs, final
